@@ -5,7 +5,7 @@
 
 enum { G_LIFE = 1, G_REG = 2, G_MSG = 4, G_SUB = 8, G_PILL = 16, G_ARM = 32, G_CTX = 64, G_BATCH = 128, G_STASH = 256, G_BECOME = 512,
        G_SRC = 1024, G_ENV = 2048, G_SYS = 4096, G_REFS = 8192, G_FAULT = 16384, G_TICK = 32768, G_ILLEGAL = 65536, G_AUTOFREE = 131072,
-       G_QUIT = 262144, G_CTXCALL = 524288, G_PRIO = 1048576, G_BCAST = 2097152, G_BUCKET = 4194304, G_READY = 8388608, G_BADPARAM = 16777216, G_EPOLLFAULT = 33554432, G_CTLFAULT = 67108864, G_ENVX = 134217728, G_SUBDUP = 268435456, G_REREG = 536870912 };
+       G_QUIT = 262144, G_CTXCALL = 524288, G_PRIO = 1048576, G_BCAST = 2097152, G_BUCKET = 4194304, G_READY = 8388608, G_BADPARAM = 16777216, G_EPOLLFAULT = 33554432, G_CTLFAULT = 67108864, G_ENVX = 134217728, G_SUBDUP = 268435456, G_REREG = 536870912, G_TFAULT = 1073741824 /* fault deviation: the timer of a batch timeout / token bucket cannot be created */ };
 typedef struct {
     const char *prop; int nmods; unsigned groups, rules; int maxdev;
     const char *prelude;                 /* hex ops applied at reset (not counted in depth) */
@@ -81,7 +81,7 @@ static int enabled_ops(op_t *o, int max) {
         if (P.groups & G_BCAST) { EMIT(O_BCAST, s, 0, 0); if (P.groups & G_AUTOFREE) EMIT(O_BCAST, s, 0, 1); }
         if (P.groups & G_PILL) for (int t = 0; t < NMO; t++) if (handle(t) && (MD[t].st == S_RUNNING || ill)) EMIT(O_PILL, s, t);
         if (P.groups & G_BECOME) { if (st == S_RUNNING || ill) { for (int h = 1; h <= 2; h++) if (m->nhs < 3) EMIT(O_BECOME, s, h); EMIT(O_UNBECOME, s); } }
-        if (P.groups & G_BATCH) { for (int b = 0; b < 4; b++) if (BSZ[b] != m->batch_size || b == 0) EMIT(O_BATCH_SIZE, s, b);   /* re-setting 0 is generated too: it must be a no-op */ for (int t = 0; t < 2; t++) if (t != m->batch_tmo) EMIT(O_BATCH_TMO, s, t); }
+        if (P.groups & G_BATCH) { for (int b = 0; b < 4; b++) if (BSZ[b] != m->batch_size || b == 0) EMIT(O_BATCH_SIZE, s, b);   /* re-setting 0 is generated too: it must be a no-op */ for (int t = 0; t < 2; t++) if (t != m->batch_tmo) { EMIT(O_BATCH_TMO, s, t); if (t && st == S_RUNNING && (P.groups & G_TFAULT)) EMIT(O_BATCH_TMO, s, t, 1); } }
         if (P.groups & G_SRC) for (int kd = 0; kd < NKIND; kd++) if (P.kinds & (1u << kd)) {
             for (int key = 0; key < (P.keylimit && P.keylimit < NKEYS[kd] ? P.keylimit : NKEYS[kd]); key++) {
                 int idx = find_src(s, kd, key);
@@ -106,7 +106,7 @@ static int enabled_ops(op_t *o, int max) {
             if (P.groups & G_BADPARAM) EMIT(O_SRC_REG, s, kd * 16 + 15, 0);
             if ((P.groups & G_BADPARAM) && kd == K_FD && st == S_RUNNING) EMIT(O_SRC_REG, s, kd * 16 + 14, 0);      /* a descriptor the poll set refuses: rejected at once on a RUNNING module */
         }
-        if ((P.groups & G_BUCKET)) for (int b = 0; b < NTBCFG; b++) if (TBCFG[b].rate != m->tb_rate || TBCFG[b].burst != m->tb_burst) EMIT(O_BUCKET, s, b);
+        if ((P.groups & G_BUCKET)) for (int b = 0; b < NTBCFG; b++) if (TBCFG[b].rate != m->tb_rate || TBCFG[b].burst != m->tb_burst) { EMIT(O_BUCKET, s, b); if (TBCFG[b].rate && b <= 3 && st == S_RUNNING && (P.groups & G_TFAULT)) EMIT(O_BUCKET, s, b, 1); }
         if (P.groups & G_STASH) for (int k = 0; k < 5; k++) if (st == S_RUNNING || (ill && k == 0)) EMIT(O_UNSTASH, s, k);
         if ((P.groups & G_ARM) && dev < P.maxdev && m->present) for (int cb = 0; cb < NCB; cb++) if ((P.armcbs & (1u << cb)) && !m->armed[cb].act) {
             if (cb == CB_EVAL && !m->evalmode) continue;
@@ -179,11 +179,11 @@ static void fmt_op(op_t op, char *b, size_t cap) {
     case O_BECOME: snprintf(b, cap, "become(%s,h%d)", A, op.b); break;
     case O_UNBECOME: snprintf(b, cap, "unbecome(%s)", A); break;
     case O_BATCH_SIZE: snprintf(b, cap, "set_batch_size(%s,%zu)", A, BSZ[op.b & 3]); break;
-    case O_BATCH_TMO: snprintf(b, cap, "set_batch_timeout(%s,%luns)", A, (unsigned long)TMO[op.b % 3]); break;
+    case O_BATCH_TMO: snprintf(b, cap, "set_batch_timeout(%s,%luns)%s", A, (unsigned long)TMO[op.b % 3], op.d == 1 ? " [timerfd_create fails]" : ""); break;
     case O_UNSTASH: snprintf(b, cap, "unstash(%s,%zu)", A, UNST[op.b % 5]); break;
     case O_SRC_REG: if ((op.b & 15) == 14) { snprintf(b, cap, "src_register(%s,fd of a regular file)", A); break; } snprintf(b, cap, "src_register(%s,%s#%d%s%s%s%s)", A, KN[(op.b >> 4) % NKIND], op.b & 15, (op.d & 1) ? ",AUTOCLOSE" : "", (op.d & 2) ? ",ONESHOT" : "", (op.d & 4) ? ",DUP" : "", (op.d & 8) ? ",AUTOFREE" : ""); break;
     case O_SRC_DEREG: snprintf(b, cap, "src_deregister(%s,%s#%d)", A, KN[(op.b >> 4) % NKIND], op.b & 15); break;
-    case O_BUCKET: snprintf(b, cap, "set_tokenbucket(%s,rate=%d,burst=%d)", A, TBCFG[op.b % NTBCFG].rate, TBCFG[op.b % NTBCFG].burst); break;
+    case O_BUCKET: snprintf(b, cap, "set_tokenbucket(%s,rate=%d,burst=%d)%s", A, TBCFG[op.b % NTBCFG].rate, TBCFG[op.b % NTBCFG].burst, op.d == 1 ? " [timerfd_create fails]" : ""); break;
     case O_ARM: snprintf(b, cap, "arm(%s.%s: %s %d)", A, CBN[(op.b >> 5) & 3], AN[(op.b & 31) < A_MAX ? (op.b & 31) : 0], op.d); break;
     case O_READY: snprintf(b, cap, "make_readable(fd%d)", op.a); break;
     case O_HANGUP: snprintf(b, cap, "peer_closes(fd%d)", op.a); break;
